@@ -28,8 +28,8 @@ theorem C03_esc_attr_rest (c : Char)
   simp [escAttrChar, h1, h2, h3, h4, h5, h6, h7]
 
 /-- what is written between the quotes for a plain value decodes to exactly the stored value -/
-theorem C03_decode (s : Str) : decodeRefs (emitAttrVal cfg (.plain s)) = s := by
-  show decodeRefs (htmlEscapeT Generated.attrTbl s) = s
+theorem C03_decode (s : Str) : decodeCharRefs (emitAttrVal cfg (.plain s)) = s := by
+  show decodeCharRefs (htmlEscapeT Generated.attrTbl s) = s
   rw [C03_esc_attr_as_written]; exact decode_escAttr s
 
 /-- it can never terminate the value (`"`), add an attribute or close the tag (`"`, `'`, `<`, `>`), or break
